@@ -58,7 +58,12 @@ Definition before_completion (pkt : option pdu) : D unit :=
   when b check_limit_handling ;;;
   b <- step_is DS_WAITING_FOR_MISSING_DATA ;;
   when b
-    ((match pkt with Some (PEof _ _ _ _ _) => prepare_eof_ack_packet | _ => ret tt end) ;;;
+    ((match pkt with
+      | Some (PEof _ cond ck sz _) =>
+          if cond =? C_NO_ERROR then prepare_eof_ack_packet
+          else (setp (fun p => p <| p_deferred := false |>) ;;; handle_eof_pdu cond ck sz)
+      | _ => ret tt
+      end) ;;;
      (match pkt with
       | Some (PFileData _ off data) =>
           handle_fd_pdu off data ;;;
